@@ -342,7 +342,7 @@ def check(run):
         if auto and k % 4 == 0 and disc:
             exclude = sorted(set([disc[int(r.integers(0, len(disc)))]] + [str(s) for s in r.choice(present, int(r.integers(0, 2)), replace=False)]))
             # names that exclude nothing: a solvent without candidate files, a species given explicitly, a name listed twice
-            exclude += [x for x, p_ in (('SOL', 0.5), ('W', 0.3)) if r.random() < p_]
+            exclude += [x for x, p_ in (('SOL', 0.5), ('W', 0.3), ('ABCD', 0.3), ('XAX', 0.2)) if r.random() < p_]     # names that merely contain a species' name
             exclude += [e_ for e_ in explicit if r.random() < 0.5]
             if r.random() < 0.3:
                 exclude.append(exclude[0])
